@@ -65,6 +65,7 @@ type Val struct {
 type Leaf struct {
 	Path string
 	Sort string
+	Ref  bool // holds a heap reference (pointer, slice backing array, map)
 }
 
 var sortStrArrInt = SArr(SStr, SInt)
@@ -201,33 +202,35 @@ func flatten(t types.Type) []Leaf {
 	var out []Leaf
 	switch classify(t) {
 	case VTime:
-		out = []Leaf{{".t", SInt}}
-	case VInt, VPtr, VMap:
-		out = []Leaf{{"", SInt}}
+		out = []Leaf{{".t", SInt, false}}
+	case VInt:
+		out = []Leaf{{"", SInt, false}}
+	case VPtr, VMap:
+		out = []Leaf{{"", SInt, true}}
 	case VBool:
-		out = []Leaf{{"", SBool}}
+		out = []Leaf{{"", SBool, false}}
 	case VStr:
-		out = []Leaf{{"", SStr}}
+		out = []Leaf{{"", SStr, false}}
 	case VBig:
-		out = []Leaf{{".nil", SBool}, {".v", SInt}}
+		out = []Leaf{{".nil", SBool, false}, {".v", SInt, false}}
 	case VSlice:
-		out = []Leaf{{".arr", SInt}, {".off", SInt}, {".len", SInt}}
+		out = []Leaf{{".arr", SInt, true}, {".off", SInt, false}, {".len", SInt, false}}
 	case VIface:
-		out = []Leaf{{".tag", SInt}, {".pl", SInt}}
+		out = []Leaf{{".tag", SInt, false}, {".pl", SInt, false}}
 	case VCoins:
-		out = []Leaf{{"", sortStrArrInt}}
+		out = []Leaf{{"", sortStrArrInt, false}}
 	case VStruct:
 		st := types.Unalias(t).Underlying().(*types.Struct)
 		for i := 0; i < st.NumFields(); i++ {
 			for _, l := range flatten(st.Field(i).Type()) {
-				out = append(out, Leaf{fmt.Sprintf(".%d%s", i, l.Path), l.Sort})
+				out = append(out, Leaf{fmt.Sprintf(".%d%s", i, l.Path), l.Sort, l.Ref})
 			}
 		}
 	case VTuple:
 		tu := t.(*types.Tuple)
 		for i := 0; i < tu.Len(); i++ {
 			for _, l := range flatten(tu.At(i).Type()) {
-				out = append(out, Leaf{fmt.Sprintf(".%d%s", i, l.Path), l.Sort})
+				out = append(out, Leaf{fmt.Sprintf(".%d%s", i, l.Path), l.Sort, l.Ref})
 			}
 		}
 	case VFunc, VOpaque:
@@ -328,7 +331,7 @@ func zeroVal(t types.Type) *Val {
 }
 
 var emptyStr = Const("str:", SStr)
-var zeroCoins = Const("coins:zero", sortStrArrInt)
+var zeroCoins = zeroCoinsT
 
 func zeroLeaf(l Leaf) *Term {
 	switch l.Sort {
